@@ -166,6 +166,22 @@ func (lr *lifeRun) observe(id string) {
 	lr.t.emit(map[string]any{"ev": "Observe", "mw": id, "fp": fp, "cfgnil": isNil, "cfgfp": cfp})
 }
 
+func (lr *lifeRun) pair(a, b string) {
+	ma, mb := lr.mws[a], lr.mws[b]
+	if ma == nil || mb == nil {
+		return
+	}
+	defer func() {
+		if p := recover(); p != nil {
+			lr.t.emit(map[string]any{"ev": "Panic", "what": fmt.Sprint(p), "where": "pair " + a + "/" + b})
+		}
+	}()
+	ca, na := configFingerprint(ma.Config())
+	cb, nb := configFingerprint(mb.Config())
+	lr.t.emit(map[string]any{"ev": "Pair", "a": a, "b": b, "fpa": fingerprint(ma, lr.suite), "fpb": fingerprint(mb, lr.suite),
+		"cfa": fmt.Sprint(na, ca), "cfb": fmt.Sprint(nb, cb)})
+}
+
 func (lr *lifeRun) reset(suite []reqSpec) {
 	lr.suite = suite
 	lr.mws = map[string]*cors.Middleware{}
@@ -320,7 +336,7 @@ func (lr *lifeRun) mutatingServe(id string, with string) {
 func cmdLife(args []string) {
 	fs := flag.NewFlagSet("life", flag.ExitOnError)
 	trace := fs.String("trace", "", "NDJSON trace to write")
-	mode := fs.String("mode", "hist", "hist | multi | reject | roundtrip | mutate")
+	mode := fs.String("mode", "hist", "hist | multi | rejtwin | reject | roundtrip | mutate")
 	cases := fs.String("cases", "", "histories written by TLC (mode hist)")
 	n := fs.Int("n", 200, "number of cases (random modes)")
 	stride := fs.Int("stride", 1, "mode hist: replay every stride-th history (offset by seed)")
@@ -457,6 +473,66 @@ func cmdLife(args []string) {
 				ops = append(ops, fmt.Sprintf("%s(%s,%s%v)", st.K, id, st.C, st.B))
 				lr.observe("m1")
 				lr.observe("m2")
+			}
+			if len(samples) < 3 {
+				samples = append(samples, ops)
+			}
+		})
+	case "rejtwin":
+		// C08 as a twin experiment over TLC's history universe: m performs the history, its twin w performs the history
+		// WITHOUT the rejected Reconfigure calls; after every operation the two must be indistinguishable.
+		idx := 0
+		readCases(*cases, func(line []byte) {
+			idx++
+			var hist []struct {
+				Op struct {
+					K string `json:"k"`
+					C string `json:"c"`
+					B bool   `json:"b"`
+				} `json:"op"`
+			}
+			if err := json.Unmarshal(line, &hist); err != nil {
+				fatal("bad history: %v", err)
+			}
+			has := false
+			for _, st := range hist {
+				has = has || (st.Op.K == "reconf" && st.Op.C == "invalid")
+			}
+			if !has {
+				return
+			}
+			lr.reset(abSuite)
+			ncases++
+			var ops []string
+			for _, st := range hist {
+				for _, id := range []string{"m", "w"} {
+					switch st.Op.K {
+					case "new":
+						lr.newMW(id, "A", cfgA)
+					case "zero":
+						lr.zero(id)
+					case "setdebug":
+						lr.setDebug(id, st.Op.B)
+					case "reconf":
+						switch st.Op.C {
+						case "nil":
+							lr.reconf(id, "nil", nil)
+						case "A":
+							c := cfgA
+							lr.reconf(id, "A", &c)
+						case "B":
+							c := cfgB
+							lr.reconf(id, "B", &c)
+						case "invalid":
+							if id == "m" {
+								c := invalid[(idx+len(ops))%len(invalid)].Cfg
+								lr.reconf(id, "invalid", &c)
+							}
+						}
+					}
+				}
+				ops = append(ops, st.Op.K+":"+st.Op.C+fmt.Sprint(st.Op.B))
+				lr.pair("m", "w")
 			}
 			if len(samples) < 3 {
 				samples = append(samples, ops)
